@@ -15,6 +15,7 @@ Scn == ndJsonDeserialize(TraceFile)
 N == Len(Scn)
 Modules == {"csv", "utf8"}
 MaxLen == 1000
+Alphabet == "full"
 
 VARIABLES i, k, granted, loaded, ctx, hist
 P == INSTANCE BlocPlugin
@@ -33,7 +34,7 @@ Act(st) ==
     [] h.a = "importpath" -> P!ImportByPath(h.c, h.m)
     [] h.a = "include" -> P!Include(h.c)
     [] h.a = "decl" -> P!Decl(h.c, h.m)
-    [] h.a = "ctor" -> P!Ctor(h.c, h.m, h.where)
+    [] h.a = "ctor" -> P!Ctor(h.c, h.m, h.where, IF "form" \in DOMAIN h THEN h.form ELSE "args")
 
 Init == /\ i \in 1..N /\ k = 0 /\ P!Init
 
